@@ -392,9 +392,12 @@ func main() {
 			}
 			_ = json.Unmarshal(v.Rec, &rec)
 			done := false
-			if v.Stride > 0 && v.Seed > v.Seed0 {
+			if v.Stride > 0 && v.Seed >= v.Seed0 {
 				total := (v.Seed - v.Seed0) / v.Stride
-				for l := uint64(1); !done; l *= 4 {
+				// l = 0 first: the scenario as the worker generated and prepared it (the
+				// replay file holds the minimised one, which was minimised in a process
+				// with a history)
+				for l := uint64(0); !done; l = l*4 + 1 {
 					if l > total {
 						l = total
 					}
